@@ -58,12 +58,30 @@ pub fn candidate_names(src: &[u8]) -> Vec<String> {
 pub fn compile_str(src: &[u8], ups: &[(String, u32)], names: &[String]) -> String {
     let u: Vec<(&str, u32)> = ups.iter().map(|(n, v)| (n.as_str(), *v)).collect();
     // compile, then serialize (what compile_and_serialize does), keeping the event count
-    match catch(|| portus::lang::compile(src, &u).and_then(|(b, s)| { let n = b.events.len(); Ok((n, b.serialize()?, s)) })) {
-        None => "PANIC".into(),
-        Some(Err(_)) => "ERR".into(),
-        Some(Ok((nev, img, sc))) => format!("OK {} {} {}", nev, hex(&img), scope_str(&sc, names)),
+    // the compiler runs on its own thread under a time limit: a compilation that does not come back is a result too
+    let (tx, rx) = std::sync::mpsc::channel();
+    let srcv = src.to_vec();
+    let upsv: Vec<(String, u32)> = ups.to_vec();
+    let namesv: Vec<String> = names.to_vec();
+    std::thread::Builder::new().stack_size(64 << 20).spawn(move || {
+        let u: Vec<(&str, u32)> = upsv.iter().map(|(n, v)| (n.as_str(), *v)).collect();
+        let r = match catch(|| portus::lang::compile(&srcv, &u).and_then(|(b, s)| { let n = b.events.len(); Ok((n, b.serialize()?, s)) })) {
+            None => "PANIC".to_string(),
+            Some(Err(_)) => "ERR".to_string(),
+            Some(Ok((nev, img, sc))) => format!("OK {} {} {}", nev, hex(&img), scope_str(&sc, &namesv)),
+        };
+        let _ = tx.send(r);
+    }).expect("spawn");
+    let limit = std::env::var("HARNESS_CASE_TIMEOUT_MS").ok().and_then(|v| v.parse().ok()).unwrap_or(20_000u64);
+    let _ = u;
+    match rx.recv_timeout(std::time::Duration::from_millis(limit)) {
+        Ok(r) => r,
+        Err(_) => { TIMED_OUT.store(true, std::sync::atomic::Ordering::SeqCst); "TIMEOUT".into() }
     }
 }
+/// set when a compilation did not return within the limit: the stream stops after reporting that case
+/// (the runaway thread keeps a core busy)
+pub static TIMED_OUT: std::sync::atomic::AtomicBool = std::sync::atomic::AtomicBool::new(false);
 pub fn scope_str(sc: &Scope, names: &[String]) -> String {
     if names.is_empty() { return "-".into(); }
     names.iter().map(|n| sc.get(n).map(reg_full).unwrap_or_else(|| "-".into())).collect::<Vec<_>>().join(",")
@@ -90,6 +108,11 @@ pub fn eval(arg: &str) -> String {
 pub fn emit(out: &mut dyn Write, src: &[u8], ups: &[(String, u32)]) {
     let names = candidate_names(src);
     writeln!(out, "compile\t{}\t{}", arg_str(src, ups, &names), compile_str(src, ups, &names)).unwrap();
+    stop_if_timed_out(out);
+}
+
+pub fn stop_if_timed_out(out: &mut dyn Write) {
+    if TIMED_OUT.load(std::sync::atomic::Ordering::SeqCst) { out.flush().unwrap(); std::process::exit(0); }
 }
 
 // ------------------------------------------------------------------ grammar-based generation
@@ -156,8 +179,11 @@ pub fn gen_stmt(r: &mut Rng, v: &mut Vars, depth: u32) -> String {
             // conditional / ewma bound to a report or control variable
             let mut pool: Vec<(String, bool)> = v.reports.iter().chain(v.controls.iter()).map(|(n, b, _)| (n.clone(), *b)).collect();
             if pool.is_empty() { pool.push(("Cwnd".into(), false)); }
-            let (t, is_b) = r.pick(&pool).clone();
-            if t == "Cwnd" { return format!("({} Cwnd {})", bind_kw(r), gen_num(r, v, depth)); }
+            let (mut t, is_b) = r.pick(&pool).clone();
+            if t == "Cwnd" && !r.chance(1, 3) { return format!("({} Cwnd {})", bind_kw(r), gen_num(r, v, depth)); }
+            // now and then the target is of a class that cannot hold a conditional: a primitive, an implicit
+            // register, a literal, a local, an undeclared name
+            if r.chance(1, 12) { t = (*r.pick(&["Flow.rtt_sample_us", "Ack.bytes_acked", "Flow.was_timeout", "Micros", "Rate", "Cwnd", "5", "true", "l0", "nosuch", "+infinity"])).to_string(); }
             match r.below(3) {
                 0 => format!("({} {} (if {} {}))", bind_kw(r), t, gen_bool(r, v, 1), if is_b { gen_bool(r, v, depth) } else { gen_num(r, v, depth) }),
                 1 => format!("({} {} (!if {} {}))", bind_kw(r), t, gen_bool(r, v, 1), if is_b { gen_bool(r, v, depth) } else { gen_num(r, v, depth) }),
@@ -273,6 +299,7 @@ pub fn fnv64(s: &str) -> String {
 
 fn emit_param(out: &mut dyn Write, param: &str, src: &[u8], ups: &[(String, u32)], names: &[String]) {
     writeln!(out, "compile:{}\t{}\t{}", param, arg_str(src, ups, names), compile_str(src, ups, names)).unwrap();
+    stop_if_timed_out(out);
 }
 
 const TOKENS: [&str; 26] = ["(", ")", "def", "when", "Report", "volatile", "report", "fallthrough", ":=", "+", "if", "!if", "ewma", "||", "-", "true",
